@@ -266,6 +266,67 @@ def CState.stepUnlocked (c : CState) : CAct → CState
     | some p => { c with handle := { c.handle with gate := p.2 }, gateOf := c.gateOf.filter (·.1 ≠ t) }
     | none => c
 
+/-! ### `push_temp_spec` / `pop_temp_spec` of handle clones on top of the lock protocol
+
+  Every clone of the `LoggerHandle` has its own stack. `push_temp_spec` READS the active
+  specification under the read lock (so it waits while a change holds the write lock), saves it on
+  the clone's stack, and then is an ordinary change (`set_new_spec`); `pop_temp_spec` is an ordinary
+  change to the specification saved last (and nothing if the clone has saved none). -/
+
+structure PState where
+  c : CState
+  stacks : List (Nat × LogSpec)          -- saved specifications, newest first, tagged with the clone
+  readers : List (Nat × LogSpec)         -- pushes waiting for the read lock: (clone, specification to set afterwards)
+deriving DecidableEq, Repr
+
+inductive PAct where
+  | set (t : Nat) (s : LogSpec)          -- the `set_new_spec` call of clone `t` reaches the lock
+  | push (t : Nat) (s : LogSpec)         -- the `push_temp_spec` call of clone `t` reaches the read lock
+  | pop (t : Nat)                        -- the `pop_temp_spec` call of clone `t` reaches the lock
+  | finish (t : Nat)                     -- the call of clone `t` sets the max level and releases the lock
+deriving DecidableEq, Repr
+
+/-- the newest saved specification of clone `t`, and the stacks without it -/
+def popStack (t : Nat) : List (Nat × LogSpec) → Option (LogSpec × List (Nat × LogSpec))
+  | [] => none
+  | (t', s) :: rest =>
+    if t' = t then some (s, rest)
+    else match popStack t rest with
+      | some (s', r) => some (s', (t', s) :: r)
+      | none => none
+
+/-- once no change holds the lock, the push that has waited longest reads (and saves) the active
+    specification and goes on as an ordinary change -/
+def PState.admitReader (p : PState) : PState × List CAct :=
+  match p.c.lock, p.readers with
+  | none, (t, s) :: rest =>
+    ({ c := (p.c.step (.start t s)).1, stacks := (t, p.c.handle.active) :: p.stacks, readers := rest },
+      [.start t s])
+  | _, _ => (p, [])
+
+/-- one step: the new state, whether the call could proceed, and the steps of the lock protocol
+    that were taken -/
+def PState.step (p : PState) : PAct → PState × Bool × List CAct
+  | .set t s =>
+    let r := p.c.step (.start t s)
+    ({ p with c := r.1 }, r.2, [.start t s])
+  | .push t s =>
+    match p.c.lock with
+    | none =>
+      let r := p.c.step (.start t s)
+      ({ p with c := r.1, stacks := (t, p.c.handle.active) :: p.stacks }, r.2, [.start t s])
+    | some _ => ({ p with readers := p.readers ++ [(t, s)] }, false, [])
+  | .pop t =>
+    match popStack t p.stacks with
+    | none => (p, true, [])
+    | some (s, rest) =>
+      let r := p.c.step (.start t s)
+      ({ p with c := r.1, stacks := rest }, r.2, [.start t s])
+  | .finish t =>
+    let r := p.c.step (.finish t)
+    let q := ({ p with c := r.1 } : PState).admitReader
+    (q.1, r.2, .finish t :: q.2)
+
 /-! ### Routing: `FlexiLogger::log` / `FlexiLogger::enabled` -/
 
 /-- `target.get(1..target.len()-1)` on a target that starts with `{`: `none` when `len < 2`
